@@ -55,4 +55,64 @@ example : (run F {} [.set, .commit false true, .commit true true]).2 = [.na, .er
 /-- … and after a failed version PUT the retry stores the version -/
 example : run F {} [.set, .commit true false, .commit true true] = ({}, [.na, .err, .ack]) := by decide
 
+/-! ### … and for the connection that carries on after a failed COMMIT (F76) -/
+
+theorem table_step_inv (t : T) (e : TEv) (hi : TInv t) : TInv (tstep F t e).1 := by
+  have hF : F.failedCommitReopens = true := by decide
+  obtain ⟨a, b, c, d⟩ := t
+  cases e with
+  | begin reopenOK =>
+    simp only [tstep, hF]
+    cases a <;> cases b <;> cases c <;> cases d <;> cases reopenOK <;> simp_all [TInv]
+  | commit flushOK putOK =>
+    simp only [tstep]
+    cases a <;> cases b <;> cases c <;> cases d <;> cases flushOK <;> cases putOK <;> simp_all [TInv]
+  | rollback =>
+    simp only [tstep]
+    cases a <;> cases b <;> cases c <;> cases d <;> simp_all [TInv]
+
+theorem table_run_inv (es : List TEv) (t : T) (hi : TInv t) : TInv (trun F t es).1 := by
+  induction es generalizing t with
+  | nil => simpa [trun] using hi
+  | cons e es ih =>
+    simp only [trun]
+    exact ih _ (table_step_inv t e hi)
+
+/-- **no acknowledged COMMIT publishes a version with a link to a node that was never stored**,
+    whatever failed on the connection before and however often -/
+theorem no_dangling_ack_step (t : T) (e : TEv) (hi : TInv t) : (tstep F t e).2 ≠ .ackDangling := by
+  have hF : F.failedCommitReopens = true := by decide
+  obtain ⟨a, b, c, d⟩ := t
+  cases e with
+  | begin reopenOK =>
+    simp only [tstep, hF]
+    cases a <;> cases b <;> cases c <;> cases d <;> cases reopenOK <;> simp_all [TInv]
+  | commit flushOK putOK =>
+    simp only [tstep]
+    cases a <;> cases b <;> cases c <;> cases d <;> cases flushOK <;> cases putOK <;> simp_all [TInv]
+  | rollback => simp [tstep]
+
+theorem no_dangling_ack (es : List TEv) (t : T) (hi : TInv t) : .ackDangling ∉ (trun F t es).2 := by
+  induction es generalizing t with
+  | nil => simp [trun]
+  | cons e es ih =>
+    simp only [trun, List.mem_cons, not_or]
+    exact ⟨fun h => no_dangling_ack_step t e hi h.symm, ih _ (table_step_inv t e hi)⟩
+
+/-- the defect F76 on the model without the field: a COMMIT whose flush fails, SQLite's rollback,
+    and the next transaction's COMMIT is acknowledged with a dangling link -/
+theorem without_reopen_next_commit_dangles :
+    let F0 : Facts := { F with failedCommitReopens := false }
+    (trun F0 {} [.begin true, .commit false true, .rollback, .begin true, .commit true true]).2 =
+      [.ok, .err, .ok, .ok, .ackDangling] := by
+  decide
+
+/-- the same history on the current source: the second transaction starts from the bucket -/
+example : (trun F {} [.begin true, .commit false true, .rollback, .begin true, .commit true true]).2 =
+    [.ok, .err, .ok, .ok, .ack] := by decide
+/-- … and while the bucket is still unreachable the transaction is refused, not started on the tainted tree -/
+example : (trun F {} [.begin true, .commit false true, .rollback, .begin false, .begin true, .commit true true]).2 =
+    [.ok, .err, .ok, .err, .ok, .ack] := by decide
+example : TInv {} := by simp [TInv]
+
 end S3db.Props.C04Retry
